@@ -341,11 +341,19 @@ class msg_headers(MsgSerializable):
     @classmethod
     def msg_deser(cls, f, protover=PROTO_VERSION):
         c = cls()
-        c.headers = VectorSerializer.stream_deserialize(CBlockHeader, f)
+        # each entry is an 80-byte header followed by a transaction count (always zero)
+        n = VarIntSerializer.stream_deserialize(f)
+        c.headers = []
+        for dummy in range(n):
+            c.headers.append(CBlockHeader.stream_deserialize(f))
+            VarIntSerializer.stream_deserialize(f)
         return c
 
     def msg_ser(self, f):
-        VectorSerializer.stream_serialize(CBlockHeader, self.headers, f)
+        VarIntSerializer.stream_serialize(len(self.headers), f)
+        for header in self.headers:
+            header.stream_serialize(f)
+            VarIntSerializer.stream_serialize(0, f)
 
     def __repr__(self):
         return "msg_headers(headers=%s)" % (repr(self.headers))
